@@ -54,6 +54,66 @@ Diff(a, i, j) == Cardinality({c \in ValidCols(a, i, j) : a[i][c] # a[j][c]})
 Undef == <<0, 0>>
 P(a, i, j) == IF Total(a, i, j) = 0 THEN Undef ELSE Reduce(<<Diff(a, i, j), Total(a, i, j)>>)
 JCDefined(a, i, j) == Total(a, i, j) > 0 /\ 4 * Diff(a, i, j) < 3 * Total(a, i, j)
+
+(* ---- the exact boundary of each estimator's domain ------------------------------------- *)
+(* Every closed form is a sum of logarithms; with exact counts the SIGN of each log         *)
+(* argument is decidable.  A pair is "defined" when every argument is > 0, on the           *)
+(* "boundary" when the smallest argument is exactly 0, "outside" when one is < 0; boundary   *)
+(* and outside pairs are both INVALID (nan / ArithmeticError / dropped by drop_invalid):    *)
+(* ln 0 is not a distance.  "undefined" = no valid column; "degenerate" = a coefficient of  *)
+(* the formula is 0/0 (outcome left open by the property).                                  *)
+Classify(nums) == IF \A k \in DOMAIN nums : nums[k] > 0 THEN "defined"
+                  ELSE IF \E k \in DOMAIN nums : nums[k] < 0 THEN "outside" ELSE "boundary"
+
+(* JC69: 1 - 4p/3 = (3 total - 4 diff) / (3 total) *)
+JCClass(a, i, j) == IF Total(a, i, j) = 0 THEN "undefined"
+                    ELSE Classify(<<3 * Total(a, i, j) - 4 * Diff(a, i, j)>>)
+
+(* TN93 (Tamura & Nei 1993 eq. 7) with s[x] = row + column total of x (g[x] = s[x] / 2n):   *)
+(*   1 - gR P1/(2 gA gG) - Q/(2 gR) = (sA sG sR - t1 sR^2 - tv sA sG) / (sA sG sR)           *)
+(*   1 - gY P2/(2 gC gT) - Q/(2 gY) = (sC sT sY - t2 sY^2 - tv sC sT) / (sC sT sY)           *)
+(*   1 - Q/(2 gR gY)                = (sR sY - 2 n tv) / (sR sY)                             *)
+TNNums(c, n) ==
+    LET s  == [x \in Canon |-> SumF(Canon, c[x]) + SumF(Canon, [y \in Canon |-> c[y][x]])]
+        sR == s["A"] + s["G"]
+        sY == s["C"] + s["T"]
+        t1 == c["A"]["G"] + c["G"]["A"]
+        t2 == c["C"]["T"] + c["T"]["C"]
+        tv == n - t1 - t2 - SumF(Canon, [x \in Canon |-> c[x][x]])
+    IN [s |-> s,
+        nums |-> <<s["A"] * s["G"] * sR - t1 * sR * sR - tv * s["A"] * s["G"],
+                   s["C"] * s["T"] * sY - t2 * sY * sY - tv * s["C"] * s["T"],
+                   sR * sY - 2 * n * tv>>]
+TNClass(a, i, j) ==
+    IF Total(a, i, j) = 0 THEN "undefined"
+    ELSE LET t == TNNums(Count(a, i, j), Total(a, i, j))
+         IN IF \E x \in Canon : t.s[x] = 0 THEN "degenerate" ELSE Classify(t.nums)
+
+(* paralinear / LogDet: ln det J, J = counts / n, so the sign is that of the integer         *)
+(* determinant of the count matrix (only with all four diagonal counts > 0: otherwise the    *)
+(* implementation substitutes pseudo-counts, which is not a published estimator)             *)
+Perm4 == {f \in [1..4 -> 1..4] : \A x, y \in 1..4 : f[x] = f[y] => x = y}
+Inversions(f) == Cardinality({p \in (1..4) \X (1..4) : p[1] < p[2] /\ f[p[1]] > f[p[2]]})
+Det4(m) ==      \* m: [1..4 -> [1..4 -> Int]]
+    LET term(f) == (IF Inversions(f) % 2 = 0 THEN 1 ELSE -1) * m[1][f[1]] * m[2][f[2]] * m[3][f[3]] * m[4][f[4]]
+    IN SumF(Perm4, [f \in Perm4 |-> term(f)])
+CountSeq(c) == [x \in 1..4 |-> [y \in 1..4 |-> c[CanonSeq[x]][CanonSeq[y]]]]
+DetClass(a, i, j) ==
+    IF Total(a, i, j) = 0 THEN "undefined"
+    ELSE LET c == Count(a, i, j)
+         IN IF \E x \in Canon : c[x][x] = 0 THEN "degenerate" ELSE Classify(<<Det4(CountSeq(c))>>)
+
+EstClass(est, a, i, j) ==
+    CASE est = "pdist" -> IF Total(a, i, j) = 0 THEN "undefined" ELSE "defined"
+      [] est = "jc69"  -> JCClass(a, i, j)
+      [] est = "tn93"  -> TNClass(a, i, j)
+      [] est = "det"   -> DetClass(a, i, j)
+Estimators == {"pdist", "jc69", "tn93", "det"}
+Invalid(cl) == cl \in {"undefined", "boundary", "outside"}
+(* drop_invalid: every sequence that takes part in an invalid pair is dropped *)
+DroppedSeqs(est, a) == {s \in Seqs : \E t \in Seqs \ {s} :
+                           Invalid(EstClass(est, a, IF s < t THEN s ELSE t, IF s < t THEN t ELSE s))}
+
 (* what every estimator is a function of *)
 Stat(a, i, j) == [cnt |-> Count(a, i, j), total |-> Total(a, i, j), diff |-> Diff(a, i, j)]
 Direct(a) == [p \in {q \in Seqs \X Seqs : q[1] < q[2]} |-> Count(a, p[1], p[2])]   \* total, diff, p follow from it
@@ -139,6 +199,10 @@ BlockAln(dg, off, m, nc) ==
 (* constants of the "blocks" configurations (a cfg file cannot hold tuples) *)
 DiagQuick == {<<3, 3, 3, 3>>, <<5, 2, 4, 1>>, <<2, 0, 3, 1>>, <<2, 0, 0, 0>>}   \* the last one reaches p = 3/4 exactly
 DiagThorough == DiagQuick \cup {<<1, 1, 1, 1>>, <<1, 4, 2, 6>>, <<9, 7, 8, 6>>}
+(* profiles around which small off-diagonal sets land EXACTLY on a domain boundary:          *)
+(* AAGGCCTT / GAGACCTT (TN93 purine term), AGCT / CGAT (TN93 transversion term),              *)
+(* two equal rows (determinant 0), p = 3/4 (JC69)                                             *)
+DiagBoundary == {<<1, 2, 1, 2>>, <<2, 1, 2, 1>>, <<0, 0, 1, 1>>, <<1, 1, 1, 1>>, <<2, 0, 0, 0>>, <<2, 2, 2, 2>>}
 NCNone == {<<>>}
 NCSome == {<<>>, <<<<"N", "A">>, <<"C", "-">>, <<"R", "G">>, <<"-", "-">>, <<"T", "R">>, <<"N", "N">>>>}
 
@@ -161,9 +225,11 @@ Measured(a) ==
                  total |-> Total(a, p[1], p[2]),
                  diff |-> Diff(a, p[1], p[2]),
                  jc |-> JCDefined(a, p[1], p[2]),
+                 cls |-> [est \in Estimators |-> EstClass(est, a, p[1], p[2])],
                  src |-> tab[p],
                  exact |-> ShortcutExactT(a, tab, p[1], p[2]),
                  same |-> SameIndexed(a, p[1], p[2])] : p \in PairList},
+     dropped |-> [est \in Estimators |-> DroppedSeqs(est, a)],
      canonical |-> AllCanonical(a)]
 
 AddColumnT(col) == /\ Mode = "all" /\ Len(aln[1]) < NCol
@@ -194,6 +260,11 @@ Symmetric == \A i, j \in Seqs : i <= j =>
                    IN \A x, y \in Canon : cij[x][y] = cji[y][x]
 
 ZeroDiagonal == \A i \in Seqs : Diff(aln, i, i) = 0
+
+(* the domain classification does not depend on the order of the pair, and agrees with JCDefined *)
+ClassesSymmetric == \A i, j \in Seqs : i < j =>
+                       /\ \A est \in Estimators : EstClass(est, aln, i, j) = EstClass(est, aln, j, i)
+                       /\ JCDefined(aln, i, j) <=> JCClass(aln, i, j) = "defined"
 
 Perms(S) == {f \in [S -> S] : \A x, y \in S : f[x] = f[y] => x = y}
 Permuted(a, f) == [s \in Seqs |-> [c \in Cols(a) |-> a[s][f[c]]]]
